@@ -1,6 +1,6 @@
 (* C02 — property theorems.  Only statements, `exact`, and Print Assumptions. *)
 From Sdns Require Import Common.Base Gen.C02 C02.Model C02.Spec
-  C02.ModelNsec3 C02.Proofs_Order C02.Proofs_Nsec C02.Proofs_Spec C02.Proofs_NsecTop C02.Proofs_Nsec3 C02.ModelCut C02.Proofs_Cut C02.ModelAuth C02.ModelShared C02.Proofs_Shared C02.Proofs_Gen.
+  C02.ModelNsec3 C02.Proofs_Order C02.Proofs_Nsec C02.Proofs_Spec C02.Proofs_NsecTop C02.Proofs_Nsec3 C02.ModelCut C02.Proofs_Cut C02.ModelAuth C02.ModelShared C02.Proofs_Shared C02.Proofs_Gen C02.Proofs_Mix.
 Open Scope N_scope.
 
 (* ---- canonical order (RFC 4034 §6.1) is a total order *)
@@ -66,6 +66,33 @@ Theorem aggressive_nsec_sound_raw :
 Proof. exact (fun z q signer qtype qclass recs Hwf Hg =>
                 aggr_nsec_sound z (canon q) qtype qclass (canon signer) (canon_recs recs) Hwf Hg). Qed.
 Print Assumptions aggressive_nsec_sound_raw.
+
+(* ---- mixtures with records replayed from OTHER zones below the signer's name (session 4): for every
+   well-formed zone, every sub-multiset of its genuine chain in any order, mixed with ANY records whose
+   owner and NextDomain both lie inside subtrees rooted at non-wildcard names [ds] (a child zone's chain,
+   its chain-closing record included, replayed into the parent's answer: ds = the delegation points) and
+   every question outside those subtrees, the verdict of all three entry points is sound for the zone:
+   a parent-zone name that exists is never denied by way of a child zone's records.  (Records that cross
+   the signer zone refuse the whole set: aggressive_nsec_refuses_mixtures.) *)
+Theorem aggressive_nsec_sound_foreign_subtrees :
+  forall z q qtype qclass signer recs ds,
+    zone_wf z -> (forall d, In d ds -> not_wild_b d = true) ->
+    (forall r, In r recs -> genuine z r \/ confined_b ds r = true) -> outside_b ds q = true ->
+    sound_verdict z q qtype (aggr_nsec q qtype qclass signer recs) /\
+    sound_verdict z q qtype (aggr_nsec_set q qtype qclass signer recs).
+Proof. exact aggr_nsec_mix_sound. Qed.
+Print Assumptions aggressive_nsec_sound_foreign_subtrees.
+(* the roots Run.spec_case judges mixtures with (the zone's own non-wildcard cut owners) meet the side condition *)
+Theorem spec_mix_roots_admissible : forall z d, In d (mix_roots z) -> not_wild_b d = true.
+Proof. exact mix_roots_not_wild. Qed.
+Print Assumptions spec_mix_roots_admissible.
+(* a confined record is invisible to the classifier for every outside name: it is neither an ancestor
+   cut of it, nor its owner, nor does its interval (ascending or chain-closing) cover it *)
+Theorem confined_record_is_invisible :
+  forall ds e x, confined_b ds e = true -> outside_b ds x = true ->
+  strict_prefix_b (c_owner e) x = false /\ rname_eqb x (c_owner e) = false /\ classify_interval x e = None.
+Proof. exact confined_irrelevant. Qed.
+Print Assumptions confined_record_is_invisible.
 
 (* a denial is produced only for a supported question inside the signer zone, from records that are
    all of the question's class and all inside the signer zone: one foreign record refuses the set *)
